@@ -6,12 +6,18 @@ class PipelineModule(torch.nn.Module):
 
     def __init__(self, layers=None, topology=None):
         super().__init__()
+        # as DeepSpeed's PipelineModule._build(): every layer is a direct child named by its global layer index
+        self._n = 0
         if layers is not None:
-            self.layers = layers if isinstance(layers, torch.nn.Module) else torch.nn.Sequential(*layers)
+            for i, l in enumerate(list(layers.children()) if isinstance(layers, torch.nn.Module) and not isinstance(layers, torch.nn.Linear) else list(layers)):
+                self.add_module(str(i), l)
+                self._n += 1
         self._topo = topology
 
     def topology(self):
         return self._topo
 
     def forward(self, x):
-        return self.layers(x)
+        for i in range(self._n):
+            x = getattr(self, str(i))(x)
+        return x
